@@ -311,6 +311,7 @@ func (w *parserWorld) Start(s *simrt.Sched, res *RunResult) {
 		total += time.Duration(c.EndGapUs) * time.Microsecond
 		// a slow consumer legitimately needs its delay per delivered item
 		total += time.Duration(len(c.Stream)+8)*time.Duration(c.ConsDelay)*time.Microsecond + time.Duration(c.StallUs)*time.Microsecond
+		s.MaxTime = total + 30*time.Minute
 		s.Go("deadline", func() {
 			simrt.Sleep(total + 120*time.Second)
 			w.deadline = true
@@ -501,8 +502,11 @@ func (w *parserWorld) Finish(s *simrt.Sched, res *RunResult) {
 	taskPanics(s, res, "panic")
 	res.Nontrivial = len(c.Chunks) > 1 || c.Consumer >= 2 || c.EndKind != 0
 	res.EndState = fmt.Sprintf("items=%d closed=%v wait=%v end=%s", len(w.items), w.chanClosed, w.waitReturned, s.End)
-	if s.End == simrt.EndStepLimit {
-		res.Diag = append(res.Diag, "step limit reached")
+	if s.End == simrt.EndStepLimit || s.End == simrt.EndTimeLimit {
+		// the run was cut by the simulator's own budget: nothing can be
+		// concluded about liveness from it
+		res.Diag = append(res.Diag, "run cut by the simulator budget: "+s.End)
+		res.Inconclusive++
 		return
 	}
 	w.checkAlias()
